@@ -106,7 +106,7 @@ def reannounce (h : H) : List Obs :=
 /-- hub_pairing.go mapShipMessageExchangeState -/
 def mapState (st : Nat) : Nat := Generated.pairingStateMap st
 
-def handshakeEnded (st : Nat) : Bool := st = 38 || st = 14 || st = 15 || st = 16 || st = 17 || st = 39
+def handshakeFailed (st : Nat) : Bool := st = 14 || st = 15 || st = 16 || st = 17 || st = 39
 
 def nextCounter (c : Option Nat) : Nat :=
   match c with
@@ -176,14 +176,14 @@ def untrust (h : H) (k : Key) : H :=
   ((h.set k { h.get k with trusted := false }).setDetailState k csNone).notify k false
 
 /-- CancelPairingWithSKI's dealing with the registered connection: AbortPendingHandshake takes a
-    connection in a hello-listen state to the abort-done state (Conn.abort); any other handshake that has
-    not ended is closed -/
+    connection in a hello-listen state to the abort-done state (Conn.abort); any other connection whose
+    handshake has not failed - a running handshake as well as a completed connection - is closed -/
 def cancelConn (h : H) (k : Key) : H × List Obs :=
   match (h.get k).conn with
   | some c =>
     (h.set k { h.get k with conn := some { c with st := if c.st = 8 || c.st = 11 then 15 else c.st } },
      [Obs.abort c.id, .query c.id] ++
-       (if handshakeEnded (if c.st = 8 || c.st = 11 then 15 else c.st) then [] else [Obs.close c.id false 4452]))
+       (if handshakeFailed (if c.st = 8 || c.st = 11 then 15 else c.st) then [] else [Obs.close c.id false 4452]))
   | none => (h, [])
 
 /-- the registered connection's own state -/
